@@ -235,6 +235,17 @@ func checkC05(c *Ctx) {
 	seen := map[string]bool{}
 	nSched := 0
 	stride := c.Pick(2, 1)
+	if c.Thorough() {
+		// the deeper model emits millions of schedules: replay an evenly spread sample of at most ~250000 of them
+		total := 0
+		if err := ReadLines(r.Emitted, func([]byte) error { total++; return nil }); err != nil {
+			c.Infra(err)
+			return
+		}
+		stride = 1 + total/250000
+		c.Cov("schedules_emitted", total)
+		c.Cov("schedule_stride", stride)
+	}
 	err = ReadLines(r.Emitted, func(line []byte) error {
 		var g struct {
 			H []regOp `json:"h"`
@@ -243,7 +254,7 @@ func checkC05(c *Ctx) {
 			return err
 		}
 		nSched++
-		if !c.Thorough() && nSched%stride != 0 {
+		if (nSched+int(c.Seed))%stride != 0 {
 			return nil
 		}
 		for variant := 0; variant < c.Pick(1, 2); variant++ {
